@@ -3,11 +3,11 @@ hopeless requests are cancelled.  (Also the library of the parts C10_cw and C12_
 import core
 from core import gz, glist, gbool
 
-FILES = ["schedulers/clockwork_scheduler.py", "workers/workers.py", "workload/strategy.py", "workload/resources.py",
+FILES = ["schedulers/clockwork_scheduler.py", "workers/workers.py", "workload/strategy.py", "workload/resources.py", "workload/resource.py",
          "workload/placement.py"]
 TRUSTED = [
     "translator fragment Clockwork (frag_clockwork.py): admission test, expiry test, availability test, priority, sort key, "
-    "Request.__lt__, get_placements guard, not-loaded test, enforce_deadlines constant are REGENERATED from "
+    "Request.__lt__, get_placements guard, not-loaded test, enforce_deadlines constant, ExecutionStrategy.__eq__/__lt__ (strategy.py) are REGENERATED from "
     "clockwork_scheduler.py on every run; the surrounding control flow (loops over dict items, deque, remove_task) is a "
     "hand-written Gallina transcription tied to the code by the S-cw differential stream",
     "EventTime arithmetic/comparison is integer microsecond arithmetic (property C16)",
